@@ -185,3 +185,26 @@ Proof.
   split; [exact (proj1 ex_required_break_defined)|]. split; [exact (proj1 (proj2 ex_required_break_defined))|].
   split; [exact (proj2 (proj2 (proj2 (proj2 ex_required_break))))|exact ex_required_break_twice].
 Qed.
+
+(* VICINITY CLUSTERING (clustering.md; the solution's commute / parking data live in ValidX.xsolution next to the unchanged
+   ssolution): "nor clustering ever displaces, duplicates or swallows a customer job".  The clustered activities are ordinary
+   activities of the document, each with its own location, so the per-job clause of `Accounted` above judges them as it is (a
+   member that the cluster swallows is AJobLost, one that is served twice AJobDuplicated / AJobIncomplete).  Added rule: an
+   activity that carries a commute field (it is served as a member of a cluster) belongs to a plan job with exactly one task
+   that is not listed in filtering.excludeJobIds - iff the checker reports no AClusterMember *)
+Theorem C02_cluster_members_checker_sound_complete : forall P X XS S,
+  member_viols P X XS S = [] <-> forall n t, nth_error (sl_tours S) n = Some t -> ClusterMembersOk P X (xt_of XS (Z.of_nat n)) t.
+Proof. exact member_viols_nil. Qed.
+
+(* non-vacuity: a document with a clustered stop (parking, a member with a forward and a backward commute) passes the WHOLE
+   round-four checker; the same document without the member is exactly [AJobLost 3]; with the member's job excluded from
+   clustering by the plan exactly [AClusterMember 0 2] *)
+Theorem C02_nonvacuous_cluster :
+  valid4 ex_Xc ex_XSc ex_Pc ex_Sc = []
+  /\ accounted4 ex_Xc ex_XSc_lost ex_Pc ex_Sc_lost = [AJobLost 3]
+  /\ accounted4 ex_Xc_excl ex_XSc ex_Pc ex_Sc = [AClusterMember 0 2]
+  /\ is_cluster_tour (xt_of ex_XSc 0) = true.
+Proof.
+  split; [exact (proj1 ex_cluster)|]. split; [exact (proj1 (proj2 ex_cluster))|].
+  split; [exact (proj1 (proj2 (proj2 (proj2 ex_cluster))))|exact (proj2 (proj2 (proj2 (proj2 ex_cluster))))].
+Qed.
